@@ -90,8 +90,11 @@ def run_cli(image_path, rpc, target=None):
     """the CLI entry point in-process (argv patched); -> exit status"""
     from ceos_alos2.sar_image import cli
 
-    argv = sys.argv
+    import io
+
+    argv, err = sys.argv, sys.stderr
     sys.argv = ["ceos-alos2-create-cache", "--rpc", str(rpc), str(image_path)] + ([str(target)] if target else [])
+    sys.stderr = io.StringIO()  # the tool's own error message (expected on damaged inputs) is not part of the check's output
     try:
         cli.main()
         return 0
@@ -100,7 +103,7 @@ def run_cli(image_path, rpc, target=None):
     except BaseException as e:  # noqa: B902 -- an uncaught exception of the tool = a crash (traceback, status 1)
         return f"crash: {type(e).__name__}: {str(e)[:120]}"
     finally:
-        sys.argv = argv
+        sys.argv, sys.stderr = argv, err
 
 
 class Driver:
